@@ -1,7 +1,628 @@
-//! Checks over the recorded history after a run (enumerators, forks, configuration matrices).
+//! Checks over the recorded history after a run: crash-point / write-failure enumeration (C09),
+//! damage enumeration (C10), configuration matrix (C18). "Fork" = re-executing the recorded op
+//! prefix in a second world and continuing differently — exact, because replay is.
+use crate::api::{self, diff_digest, digest, guard, semantic, trunc, Crash};
+use crate::disk::{Call, DiskRef, Items, WriteOutcome};
 use crate::ops::Op;
-use crate::world::{Res, World};
+use crate::refstore::{self, sha_hex, RefState};
+use crate::rng::Rng;
+use crate::world::{Res, RunCfg, Stop, Violation, World};
+use melda::melda::Melda;
+use serde_json::{json, Value};
+use std::collections::{BTreeMap, BTreeSet};
 
-pub fn after_run(_w: &mut World, _ops: &[Op]) -> Res {
+macro_rules! viol {
+    ($w:expr, $check:expr, $class:expr, $($arg:tt)*) => {
+        return Err(Stop::Violation(Violation { prop: $w.prop.clone(), check: $check.to_string(), class: $class.to_string(), step: $w.step, detail: format!($($arg)*) }))
+    };
+}
+
+pub fn after_run(w: &mut World, ops: &[Op]) -> Res {
+    match w.prop.as_str() {
+        "C09" => c09(w, ops),
+        "C10" => c10(w, ops),
+        "C18" => c18(w, ops),
+        _ => Ok(()),
+    }
+}
+
+/// A world that has executed `ops` with all oracles silent.
+fn fork(cfg: &RunCfg, ops: &[Op]) -> Option<World> {
+    let mut c = cfg.clone();
+    c.prop = "-".to_string();
+    let mut w = World::new(c).ok()?;
+    for op in ops {
+        if w.exec(op).is_err() {
+            return None;
+        }
+    }
+    Some(w)
+}
+
+fn open_on(items: &Items, seed: u64) -> Result<Result<Melda, String>, Crash> {
+    let d = DiskRef::from_items(items.clone(), seed);
+    let store = d.store();
+    guard(|| Melda::new(store).map_err(|e| e.to_string()))
+}
+
+// ------------------------------------------------------------------------------------ C09
+
+fn is_target(op: &Op) -> bool {
+    matches!(op, Op::Commit { .. } | Op::Meld { .. })
+}
+
+fn c09(w: &mut World, ops: &[Op]) -> Res {
+    let cfg = w.cfg.clone();
+    let targets: Vec<usize> = ops.iter().enumerate().filter(|(_, o)| is_target(o)).map(|(i, _)| i).collect();
+    // bound the work per history; prefer later targets (richer states) but keep the first
+    let mut chosen: Vec<usize> = targets.iter().rev().take(5).cloned().collect();
+    if let Some(f) = targets.first() {
+        if !chosen.contains(f) {
+            chosen.push(*f);
+        }
+    }
+    chosen.sort();
+    for i in chosen {
+        c09_target(w, &cfg, ops, i)?;
+    }
+    Ok(())
+}
+
+fn c09_target(w: &mut World, cfg: &RunCfg, ops: &[Op], i: usize) -> Res {
+    let op = &ops[i];
+    let r = op.replica().unwrap();
+    let is_commit = matches!(op, Op::Commit { .. });
+    // dry run: count the writes, take a snapshot at every write boundary
+    let mut w0 = match fork(cfg, &ops[..i]) {
+        Some(x) => x,
+        None => return Ok(()),
+    };
+    if r >= w0.replicas.len() {
+        return Ok(());
+    }
+    // armed faults of the history itself would blur the enumeration: clear them in every fork
+    let clear = |wx: &mut World| {
+        for rep in &wx.replicas {
+            rep.disk.with(|d| {
+                d.fail_writes.clear();
+                d.disk_full = false;
+            });
+        }
+    };
+    clear(&mut w0);
+    let before_items = w0.replicas[r].disk.items();
+    let before_live = match w0.digest_of(r) {
+        Ok(d) => d,
+        Err(_) => return Ok(()),
+    };
+    w0.replicas[r].disk.with(|d| {
+        d.snap_on = true;
+        d.snaps.clear();
+        d.log.clear();
+    });
+    if w0.exec(op).is_err() {
+        return Ok(());
+    }
+    let (mut snaps, log) = w0.replicas[r].disk.with(|d| {
+        d.snap_on = false;
+        (std::mem::take(&mut d.snaps), d.log.clone())
+    });
+    let _ = log;
+    let final_items = w0.replicas[r].disk.items();
+    w.add("fault.crash_snapshot", snaps.len() as u64 + 1);
+    snaps.push(final_items.clone());
+    let nwrites = snaps.len() - 1;
+    if nwrites == 0 {
+        return Ok(());
+    }
+    if is_commit && w0.replicas[r].failed_commit_pending {
+        return Ok(());
+    }
+    w.bump("enum.targets");
+    if is_commit {
+        w.bump("enum.commit_targets");
+    } else {
+        w.bump("enum.meld_targets");
+    }
+    let pre = match open_on(&snaps[0], 1) {
+        Ok(Ok(m)) => digest(&m).ok(),
+        _ => None,
+    };
+    let post = match open_on(&final_items, 1) {
+        Ok(Ok(m)) => digest(&m).ok(),
+        _ => None,
+    };
+    // --- crash at every write boundary: only what was durable survives
+    for (k, snap) in snaps.iter().enumerate() {
+        w.bump("enum.crash_points");
+        let m = match open_on(snap, k as u64 + 7) {
+            Ok(Ok(m)) => m,
+            Ok(Err(e)) => viol!(w, "crash-reopen", "crash-reopen-err", "op #{} ({}) crash at write boundary {}/{}: the restarted replica cannot open its storage: {}", i + 1, op.name(), k, nwrites, e),
+            Err(c) => viol!(w, "crash-reopen", format!("crash-reopen-{}", c.class()), "op #{} ({}) crash at write boundary {}/{}: opening the storage does not return: {}", i + 1, op.name(), k, nwrites, c.text()),
+        };
+        let d = match digest(&m) {
+            Ok(d) => d,
+            Err(c) => viol!(w, "crash-reopen", format!("crash-read-{}", c.class()), "op #{} ({}) crash at write boundary {}/{}: reading the restarted replica does not return: {}", i + 1, op.name(), k, nwrites, c.text()),
+        };
+        let st = RefState::from_items(snap);
+        let mut wx = World::new_empty(cfg.clone());
+        wx.prop = w.prop.clone();
+        wx.step = w.step;
+        if let Err(Stop::Violation(mut v)) = wx.compare_with_ref(r, &d, &st, "crash") {
+            v.class = format!("crash-{}", v.class);
+            v.detail = format!("op #{} ({}) crash at write boundary {}/{}: {}", i + 1, op.name(), k, nwrites, v.detail);
+            return Err(Stop::Violation(v));
+        }
+        if is_commit {
+            if Some(&d) != pre.as_ref() && Some(&d) != post.as_ref() {
+                viol!(w, "commit-all-or-nothing", "crash-mixed-state", "op #{} (commit) crash at write boundary {}/{}: the restarted replica sees neither the previous nor the new state: vs previous: {}; vs new: {}", i + 1, k, nwrites,
+                    pre.as_ref().map(|p| diff_digest(p, &d)).unwrap_or_default(), post.as_ref().map(|p| diff_digest(p, &d)).unwrap_or_default());
+            }
+            // a block never reaches storage before the pack it names
+            for key in snap.keys().filter(|k| k.ends_with(".delta") && !before_items.contains_key(*k)) {
+                if let Some(b) = refstore::parse_block(key, &snap[key]) {
+                    for p in &b.packs {
+                        if !snap.contains_key(&format!("{}.pack", p)) {
+                            viol!(w, "pack-before-block", "block-before-pack", "op #{} (commit): at write boundary {}/{} block {} is durable but its pack {} is not", i + 1, k, nwrites, key, p);
+                        }
+                    }
+                }
+            }
+        }
+    }
+    // --- write failures: every position, single and repeated, and a full disk
+    let modes: Vec<(usize, u32, bool)> = (1..=nwrites).flat_map(|j| [(j, 1u32, false), (j, 2, false), (j, 3, false)]).chain(std::iter::once((1, 0, true))).collect();
+    for (j, rep, full) in modes {
+        let mut wf = match fork(cfg, &ops[..i]) {
+            Some(x) => x,
+            None => return Ok(()),
+        };
+        clear(&mut wf);
+        wf.prop = w.prop.clone(); // oracles of op_commit / op_meld for failed operations are on
+        if full {
+            wf.replicas[r].disk.with(|d| d.disk_full = true);
+        } else {
+            wf.replicas[r].disk.with(|d| {
+                for x in 0..rep as u64 {
+                    d.fail_writes.insert(d.writes + j as u64 + x);
+                }
+            });
+        }
+        w.bump("enum.write_failures");
+        let staged_before = if is_commit { wf.live_stage(r) } else { None };
+        wf.step = w.step;
+        let tag = format!("op #{} ({}) with write {}/{} failing{}{}", i + 1, op.name(), j, nwrites, if rep > 1 { format!(" {} times in a row", rep) } else { String::new() }, if full { " (disk full)" } else { "" });
+        let res = wf.exec(op);
+        if let Err(Stop::Violation(mut v)) = res {
+            v.detail = format!("{}: {}", tag, v.detail);
+            return Err(Stop::Violation(v));
+        }
+        if res.is_err() {
+            continue;
+        }
+        let (fe, ff) = wf.replicas[r].disk.with(|d| (d.fired.write_err, d.fired.disk_full));
+        w.add("fault.write_err", fe);
+        w.add("fault.disk_full", ff);
+        let fired = fe + ff > 0;
+        if !fired {
+            continue;
+        }
+        if is_commit {
+            if !wf.replicas[r].failed_commit_pending {
+                viol!(w, "failed-write-reported", "commit-ok-despite-write-failure", "{}: commit reported success", tag);
+            }
+            let d = wf.digest_of(r)?;
+            if d["doc"] != before_live["doc"] {
+                viol!(w, "failed-commit-keeps-stage", "failed-commit-changed-doc", "{}: the document changed: {}", tag, diff_digest(&before_live, &d));
+            }
+            if wf.live_stage(r).is_none() && staged_before.is_some() {
+                viol!(w, "failed-commit-keeps-stage", "failed-commit-lost-stage", "{}: the staged changes are gone", tag);
+            }
+            // nothing but (at most) an unreferenced pack more than before
+            let now = wf.replicas[r].disk.items();
+            for k in now.keys().filter(|k| !before_items.contains_key(*k)) {
+                if !k.ends_with(".pack") {
+                    viol!(w, "failed-commit-durable", "failed-commit-left-block", "{}: the failed commit left {} in storage", tag, k);
+                }
+            }
+        }
+        // faults stop: retry until it succeeds (each armed failure may hit one retry)
+        wf.replicas[r].disk.with(|d| d.disk_full = false);
+        let mut okd = false;
+        for _ in 0..5 {
+            let armed = wf.replicas[r].disk.with(|d| !d.fail_writes.is_empty());
+            let res = wf.exec(op);
+            if let Err(Stop::Violation(mut v)) = res {
+                v.detail = format!("{} (retry): {}", tag, v.detail);
+                return Err(Stop::Violation(v));
+            }
+            if res.is_err() {
+                break;
+            }
+            let pending = if is_commit { wf.replicas[r].failed_commit_pending } else { armed };
+            if !pending {
+                okd = true;
+                break;
+            }
+        }
+        if !okd {
+            continue;
+        }
+        w.bump("enum.retries_completed");
+        let now = wf.replicas[r].disk.items();
+        // same durable result as the uninterrupted operation (an orphan pack aside)
+        let extra: Vec<&String> = now.keys().filter(|k| !final_items.contains_key(*k)).collect();
+        let missing: Vec<&String> = final_items.keys().filter(|k| !now.contains_key(*k)).collect();
+        if !missing.is_empty() || extra.iter().any(|k| !k.ends_with(".pack")) {
+            viol!(w, "retry-same-durable-result", if is_commit { "retry-different-items" } else { "meld-retry-different-items" },
+                "{}: after the retry the store differs from that of the uninterrupted operation: missing {:?}, extra {:?}", tag, missing, extra);
+        }
+        let d1 = match open_on(&now, 3) {
+            Ok(Ok(m)) => digest(&m).ok(),
+            _ => None,
+        };
+        if d1 != post {
+            viol!(w, "retry-same-durable-result", "retry-different-state", "{}: after the retry a reopened replica differs from the uninterrupted one: {}", tag, match (&post, &d1) { (Some(a), Some(b)) => diff_digest(a, b), _ => "open failed".into() });
+        }
+    }
+    Ok(())
+}
+
+impl World {
+    pub fn live_stage(&self, r: usize) -> Option<Value> {
+        let m = self.replicas[r].live.as_ref()?;
+        guard(|| m.stage().ok().flatten()).ok().flatten()
+    }
+}
+
+// ------------------------------------------------------------------------------------ C10
+
+#[derive(Clone, Debug)]
+enum Damage {
+    Flip(String, usize, u8),
+    Truncate(String, usize),
+    Delete(Vec<String>),
+    Junk(String, Vec<u8>),
+}
+
+impl Damage {
+    fn kind(&self) -> &'static str {
+        match self {
+            Damage::Flip(..) => "bitflip",
+            Damage::Truncate(_, 0) => "empty",
+            Damage::Truncate(..) => "truncate",
+            Damage::Delete(v) if v.len() == 1 => "delete",
+            Damage::Delete(_) => "delete_many",
+            Damage::Junk(..) => "junk",
+        }
+    }
+    fn apply(&self, items: &mut Items) {
+        match self {
+            Damage::Flip(k, pos, bit) => {
+                if let Some(v) = items.get_mut(k) {
+                    if *pos < v.len() {
+                        v[*pos] ^= 1 << bit;
+                    }
+                }
+            }
+            Damage::Truncate(k, len) => {
+                if let Some(v) = items.get_mut(k) {
+                    v.truncate(*len);
+                }
+            }
+            Damage::Delete(ks) => {
+                for k in ks {
+                    items.remove(k);
+                }
+            }
+            Damage::Junk(k, v) => {
+                items.entry(k.clone()).or_insert_with(|| v.clone());
+            }
+        }
+    }
+    fn describe(&self) -> String {
+        match self {
+            Damage::Flip(k, p, b) => format!("flip bit {} of byte {} of {}", b, p, k),
+            Damage::Truncate(k, l) => format!("truncate {} to {} bytes", k, l),
+            Damage::Delete(ks) => format!("delete {:?}", ks),
+            Damage::Junk(k, v) => format!("inject {} ({} bytes)", k, v.len()),
+        }
+    }
+}
+
+fn damages(items: &Items, rng: &mut Rng, thorough: bool) -> Vec<Damage> {
+    let mut out = vec![];
+    let keys: Vec<String> = items.keys().cloned().collect();
+    for k in &keys {
+        let n = items[k].len();
+        if n == 0 {
+            continue;
+        }
+        if thorough && n <= 4096 {
+            for p in 0..n {
+                out.push(Damage::Flip(k.clone(), p, rng.below(8) as u8));
+            }
+            for l in 0..n {
+                out.push(Damage::Truncate(k.clone(), l));
+            }
+        } else {
+            let mut pos: BTreeSet<usize> = [0, n - 1].into_iter().collect();
+            for _ in 0..8 {
+                pos.insert(rng.below(n));
+            }
+            for p in pos {
+                out.push(Damage::Flip(k.clone(), p, rng.below(8) as u8));
+            }
+            for l in [0, 1, n / 2, n - 1] {
+                if l < n {
+                    out.push(Damage::Truncate(k.clone(), l));
+                }
+            }
+        }
+        out.push(Damage::Delete(vec![k.clone()]));
+    }
+    for a in 0..keys.len() {
+        for b in a + 1..keys.len() {
+            out.push(Damage::Delete(vec![keys[a].clone(), keys[b].clone()]));
+            if thorough {
+                for c in b + 1..keys.len().min(b + 4) {
+                    out.push(Damage::Delete(vec![keys[a].clone(), keys[b].clone(), keys[c].clone()]));
+                }
+            }
+        }
+    }
+    // junk with ASCII names carrying block or pack extensions
+    let hexd = |rng: &mut Rng| sha_hex(&rng.next().to_le_bytes());
+    out.push(Damage::Junk(format!("{}.delta", hexd(rng)), b"{}".to_vec()));
+    out.push(Damage::Junk(format!("{}-{}.delta", rng.range(1, 5), hexd(rng)), b"{\"c\":[[\"x\",\"abc\"]]}".to_vec()));
+    out.push(Damage::Junk(format!("99999999999999999999-{}.delta", hexd(rng)), b"{}".to_vec()));
+    out.push(Damage::Junk(format!("4294967296-{}.delta", hexd(rng)), b"{}".to_vec()));
+    out.push(Damage::Junk(format!("{}.pack", hexd(rng)), b"[{\"a\":1}]".to_vec()));
+    out.push(Damage::Junk(format!("{}-{}.delta", rng.range(1, 3), hexd(rng)), b"not json at all \xff\xfe".to_vec()));
+    out.push(Damage::Junk("-.delta".to_string(), b"{}".to_vec()));
+    out.push(Damage::Junk("1-.delta".to_string(), b"{}".to_vec()));
+    out.push(Damage::Junk(".pack".to_string(), b"[]".to_vec()));
+    out.push(Damage::Junk("abc.delta".to_string(), b"{}".to_vec()));
+    // a self-consistent junk block (valid name for its bytes) that references nothing known
+    let body = format!("{{\"c\":[[\"ghost\",\"{}\"]]}}", hexd(rng));
+    out.push(Damage::Junk(format!("1-{}.delta", sha_hex(body.as_bytes())), body.into_bytes()));
+    // valid bytes re-filed under another index
+    if let Some(k) = keys.iter().find(|k| k.ends_with(".delta")) {
+        if let Some((_, d)) = k.trim_end_matches(".delta").split_once('-') {
+            out.push(Damage::Junk(format!("7-{}.delta", d), items[k].clone()));
+            out.push(Damage::Junk(format!("01-{}.delta", d), items[k].clone()));
+        }
+    }
+    if let Some(k) = keys.iter().find(|k| k.ends_with(".pack")) {
+        out.push(Damage::Junk(format!("{}.pack", hexd(rng)), items[k].clone()));
+    }
+    out
+}
+
+/// revision -> value for every revision of the undamaged history
+fn true_values(items: &Items) -> BTreeMap<(String, String), Value> {
+    let st = RefState::from_items(items);
+    let mut out = BTreeMap::new();
+    for (u, t) in &st.trees {
+        for r in t.keys() {
+            if let Some(v) = st.value(r) {
+                out.insert((u.clone(), r.clone()), Value::Object(v));
+            }
+        }
+    }
+    out
+}
+
+fn c10(w: &mut World, _ops: &[Op]) -> Res {
+    let thorough = std::env::var("VERIF_TIER").map_or(false, |t| t == "thorough");
+    let mut rng = Rng::derive(w.cfg.seed, 0xC10);
+    let disks = w.disks();
+    // the richest store and (in transit) a replica that lacks part of it
+    let (ri, items) = match disks.iter().enumerate().max_by_key(|(_, d)| d.len()) {
+        Some((i, d)) if !d.is_empty() => (i, d.clone()),
+        _ => return Ok(()),
+    };
+    let truth = true_values(&items);
+    let cfg = w.cfg.clone();
+    let ds = damages(&items, &mut rng, thorough);
+    for dmg in &ds {
+        let mut damaged = items.clone();
+        dmg.apply(&mut damaged);
+        w.bump(&format!("fault.damage_{}", dmg.kind()));
+        w.bump("enum.damage_cases");
+        // at rest: a replica opened on the damaged storage
+        c10_case(w, &cfg, ri, &damaged, &truth, None, dmg, "at rest, then open")?;
+    }
+    // in transit: a live replica holds a causally closed part; the rest arrives damaged, then refresh
+    let st = RefState::from_items(&items);
+    let mut heads: Vec<&String> = st.heads.iter().collect();
+    heads.sort();
+    if let Some(h) = heads.first() {
+        let b = &st.blocks[*h];
+        let mut part = items.clone();
+        part.remove(&format!("{}.delta", h));
+        for p in &b.packs {
+            part.remove(&format!("{}.pack", p));
+        }
+        let late: Items = items.iter().filter(|(k, _)| !part.contains_key(*k)).map(|(k, v)| (k.clone(), v.clone())).collect();
+        let lds = damages(&late, &mut rng, false);
+        for dmg in lds.iter().filter(|d| !matches!(d, Damage::Delete(_))) {
+            let mut arriving = late.clone();
+            dmg.apply(&mut arriving);
+            w.bump("enum.damage_cases_in_transit");
+            w.bump(&format!("fault.transit_{}", dmg.kind()));
+            c10_case(w, &cfg, ri, &part, &truth, Some(&arriving), dmg, "in transit, then refresh")?;
+        }
+    }
+    Ok(())
+}
+
+fn c10_case(w: &mut World, cfg: &RunCfg, r: usize, base: &Items, truth: &BTreeMap<(String, String), Value>, arriving: Option<&Items>, dmg: &Damage, mode: &str) -> Res {
+    let disk = DiskRef::from_items(base.clone(), cfg.list_seed ^ 0x10);
+    let store = disk.store();
+    let opened = guard(|| Melda::new(store).map_err(|e| e.to_string()));
+    let what = format!("{} ({})", dmg.describe(), mode);
+    let mut m = match opened {
+        Ok(Ok(m)) => m,
+        Ok(Err(_)) => {
+            w.bump("probe.damage_open_err");
+            return Ok(());
+        }
+        Err(c) => viol!(w, "damaged-open-returns", format!("damage-{}", c.class()), "{}: opening does not return: {}", what, c.text()),
+    };
+    let mut all = base.clone();
+    if let Some(a) = arriving {
+        disk.with(|d| {
+            for (k, v) in a {
+                d.map.entry(k.clone()).or_insert_with(|| v.clone());
+            }
+        });
+        for (k, v) in a {
+            all.entry(k.clone()).or_insert_with(|| v.clone());
+        }
+        match guard(|| m.refresh().map_err(|e| e.to_string())) {
+            Ok(Ok(())) => {}
+            Ok(Err(_)) => {
+                w.bump("probe.damage_refresh_err");
+                return Ok(());
+            }
+            Err(c) => viol!(w, "damaged-refresh-returns", format!("damage-{}", c.class()), "{}: refresh does not return: {}", what, c.text()),
+        }
+    }
+    let d = match digest(&m) {
+        Ok(d) => d,
+        Err(c) => viol!(w, "damaged-read-returns", format!("damage-read-{}", c.class()), "{}: reading the opened replica does not return: {}", what, c.text()),
+    };
+    w.bump("probe.damage_open_ok");
+    // exactly the state derived from the intact, causally complete subset
+    let st = RefState::from_items(&all);
+    let mut wx = World::new_empty(cfg.clone());
+    wx.prop = w.prop.clone();
+    wx.step = w.step;
+    if let Err(Stop::Violation(mut v)) = wx.compare_with_ref(r, &d, &st, "damaged") {
+        v.class = format!("damage-{}-{}", dmg.kind(), v.class);
+        v.detail = format!("{}: {}", what, v.detail);
+        return Err(Stop::Violation(v));
+    }
+    // never altered content: every value returned equals the value the undamaged history gave that revision
+    let objs: Vec<String> = d["objects"].as_array().unwrap().iter().map(|x| x.as_str().unwrap().to_string()).collect();
+    for u in objs {
+        if let Some(t) = api::dump_tree(&m, &u) {
+            for (rev, _, _) in t {
+                let v = guard(|| m.get_value(&u, Some(&rev)).ok());
+                match v {
+                    Ok(Some(v)) => {
+                        w.bump("probe.damage_value_checked");
+                        if let Some(tv) = truth.get(&(u.clone(), rev.clone())) {
+                            if &Value::Object(v.clone()) != tv {
+                                viol!(w, "no-altered-content", "damage-altered-content", "{}: revision {} of {} now reads {} (undamaged: {})", what, rev, u, trunc(&Value::Object(v)), trunc(tv));
+                            }
+                        }
+                    }
+                    Ok(None) => {}
+                    Err(c) => viol!(w, "damaged-read-returns", format!("damage-value-{}", c.class()), "{}: get_value({}, {}) does not return: {}", what, u, rev, c.text()),
+                }
+            }
+        }
+    }
+    Ok(())
+}
+
+// ------------------------------------------------------------------------------------ C18
+
+fn semantic_trace(cfg: &RunCfg, ops: &[Op]) -> Option<Vec<Value>> {
+    let mut c = cfg.clone();
+    c.prop = "-".to_string();
+    let mut w = World::new(c).ok()?;
+    let mut out = vec![];
+    for op in ops {
+        if w.exec(op).is_err() {
+            out.push(json!("stopped"));
+            return Some(out);
+        }
+        let mut step = vec![];
+        for r in 0..w.replicas.len() {
+            match w.digest_of(r) {
+                Ok(d) => step.push(semantic(&d)),
+                Err(_) => step.push(json!("abort")),
+            }
+        }
+        out.push(Value::Array(step));
+    }
+    Some(out)
+}
+
+fn c18(w: &mut World, ops: &[Op]) -> Res {
+    let cfg = w.cfg.clone();
+    let base = match semantic_trace(&cfg, ops) {
+        Some(b) => b,
+        None => return Ok(()),
+    };
+    let mut rng = Rng::derive(cfg.seed, 0xC18);
+    let caps = [1u32, 2, 3, 16];
+    let mut variants: Vec<(String, RunCfg)> = vec![];
+    for i in 0..4 {
+        let mut c = cfg.clone();
+        c.hash_seed = rng.next();
+        variants.push((format!("hash seed #{}", i), c));
+    }
+    for i in 0..3 {
+        let mut c = cfg.clone();
+        c.list_seed = rng.next();
+        variants.push((format!("listing permutation #{}", i), c));
+    }
+    for i in 0..3 {
+        let mut c = cfg.clone();
+        c.order_seed = rng.next();
+        variants.push((format!("parallel-loop order #{}", i), c));
+    }
+    for a in caps {
+        for d in caps {
+            if a == cfg.cache_ad && d == cfg.cache_data {
+                continue;
+            }
+            // the full 4x4 grid over a batch; per history a seeded half of it
+            if rng.chance(1, 2) {
+                let mut c = cfg.clone();
+                c.cache_ad = a;
+                c.cache_data = d;
+                variants.push((format!("cache capacities arrays={} data={}", a, d), c));
+            }
+        }
+    }
+    {
+        let mut c = cfg.clone();
+        c.hash_seed = rng.next();
+        c.list_seed = rng.next();
+        c.order_seed = rng.next();
+        c.cache_ad = *rng.pick(&caps);
+        c.cache_data = *rng.pick(&caps);
+        variants.push(("everything varied".to_string(), c));
+    }
+    for (name, c) in variants {
+        w.bump("enum.config_variants");
+        let t = match semantic_trace(&c, ops) {
+            Some(t) => t,
+            None => continue,
+        };
+        let kind = name.split(' ').next().unwrap_or("").to_string();
+        w.bump(&format!("fault.config_{}", kind));
+        for (i, (a, b)) in base.iter().zip(t.iter()).enumerate() {
+            if a != b {
+                let (ra, rb) = (a.as_array(), b.as_array());
+                let detail = match (ra, rb) {
+                    (Some(ra), Some(rb)) => ra.iter().zip(rb.iter()).enumerate().find(|(_, (x, y))| x != y).map(|(r, (x, y))| format!("replica {}: {}", r, diff_digest(x, y))).unwrap_or_default(),
+                    _ => format!("{} vs {}", trunc(a), trunc(b)),
+                };
+                viol!(w, "config-independence", format!("config-dependent:{}", kind), "the same history under another {} gives a different state after op #{} ({}): {}\n base config {}\n variant {}", name, i + 1, ops[i].name(), detail, cfg.to_json(), c.to_json());
+            }
+        }
+        if base.len() != t.len() {
+            viol!(w, "config-independence", format!("config-dependent-length:{}", kind), "the same history under another {} stops after {} instead of {} ops", name, t.len(), base.len());
+        }
+    }
+    // restore the nondeterminism inputs of this world's own configuration
+    crate::seam::install(cfg.hash_seed, cfg.order_seed, cfg.cache_ad, cfg.cache_data);
+    let _ = (Call::List { ext: String::new(), n: 0 }, WriteOutcome::Stored);
     Ok(())
 }
